@@ -126,6 +126,7 @@ fn gen_case(r: &mut Rng) -> Case {
     } else {
         match r.int(0, 19) {
             0 => *r.pick(&[2.0, 3.0, 6.0, 12.0]) * r.sign(),
+            1..=4 => r.range(0.01, 1.0) * r.sign(), // real-valued shifts (historic mean-time offsets are not whole minutes)
             _ => *r.pick(&[0.25, 0.5, 0.75, 1.0, 1.0]) * r.sign(),
         }
     };
